@@ -80,7 +80,7 @@ def run_case(case):
     chst = gen.chemostats_of(desc)
     flagged = [k for k, f in enumerate(chst) if f]
     f_free, mag = ref.rate_law(desc, state, None)
-    maxrate = max([m / (abs(s_) + 1.0) for m, s_ in zip(mag, state)] + [1e-3])
+    maxrate = ref.max_rate(desc, state)
     dt = 0.02 / maxrate
     osys = (gen.mild_sys(r)[0], gen.mild_sys(r)[1], "molecule")
 
